@@ -16,7 +16,8 @@ Inductive vkind :=
 | VNegOperand | VNotOperand | VArithOperand | VCompareTypes | VAndOrOperand
 | VReassignImmutable | VReassignType | VAnnotation | VRebindSameScope
 | VCompoundTarget | VCompoundOperand
-| VCondition | VRangeArg | VBreakOutsideLoop.
+| VCondition | VRangeArg | VBreakOutsideLoop
+| VUnknownFn | VCallArity | VCallArgType | VUnitValue | VReturnType | VMissingReturn.
 
 Inductive sres (A : Type) := SOk (a : A) | SBad (k : vkind).
 Arguments SOk {A}. Arguments SBad {A}.
@@ -77,12 +78,52 @@ Definition in_top (x : ident) (E : senv) : bool :=
 Definition sty_int (E : senv) (e : expr) : sres unit :=
   match sty E e with SOk TyInt => SOk Datatypes.tt | SOk _ => SBad VRangeArg | SBad k => SBad k end.
 
-Fixpoint static_stmt (lp : bool) (E : senv) (s : stmt) {struct s} : sres senv :=
+(* all written arguments are ints *)
+Fixpoint sty_args (E : senv) (l : list expr) : sres unit :=
+  match l with
+  | [] => SOk Datatypes.tt
+  | e :: r => match sty E e with
+              | SOk TyInt => sty_args E r
+              | SOk _ => SBad VCallArgType
+              | SBad k => SBad k
+              end
+  end.
+
+(* a call-level expression: Some t a value of type t, None no value (a function returning None).
+   A call must name a function of the program, bind every parameter exactly from its arguments
+   (positional first, then by keyword) and pass ints. *)
+Definition sty_c (P : prog) (E : senv) (c : cexpr) : sres (option ty) :=
+  match c with
+  | CPure e => match sty E e with SOk t => SOk (Some t) | SBad k => SBad k end
+  | CCall f pos kw =>
+      match find_fn f P with
+      | None => SBad VUnknownFn
+      | Some d =>
+          match sty_args E (pos ++ map snd kw) with
+          | SBad k => SBad k
+          | SOk _ =>
+              match select (fparams d) (length pos) O (map fst kw) with
+              | Some sel =>
+                  if Nat.eqb (length sel) (length pos + length kw)
+                  then match pick (pos ++ map snd kw) sel with
+                       | Some _ => SOk (if fret d then Some TyInt else None)
+                       | None => SBad VCallArity
+                       end
+                  else SBad VCallArity
+              | None => SBad VCallArity
+              end
+          end
+      end
+  end.
+
+(* [rt]: the enclosing function returns int *)
+Fixpoint static_stmt (P : prog) (rt lp : bool) (E : senv) (s : stmt) {struct s} : sres senv :=
   match s with
-  | SAssign k x ann e =>
-      match sty E e with
+  | SAssign k x ann c =>
+      match sty_c P E c with
       | SBad v => SBad v
-      | SOk t =>
+      | SOk None => SBad VUnitValue
+      | SOk (Some t) =>
           match k with
           | BInferred =>
               match tlookup x E with
@@ -111,8 +152,8 @@ Fixpoint static_stmt (lp : bool) (E : senv) (s : stmt) {struct s} : sres senv :=
   | SIf c th el =>
       match sty E c with
       | SOk TyBool =>
-          match static_block lp ([] :: E) th with
-          | SOk _ => match static_els lp E el with SOk _ => SOk E | SBad v => SBad v end
+          match static_block P rt lp ([] :: E) th with
+          | SOk _ => match static_els P rt lp E el with SOk _ => SOk E | SBad v => SBad v end
           | SBad v => SBad v
           end
       | SOk _ => SBad VCondition
@@ -120,7 +161,7 @@ Fixpoint static_stmt (lp : bool) (E : senv) (s : stmt) {struct s} : sres senv :=
       end
   | SWhile c b =>
       match sty E c with
-      | SOk TyBool => match static_block true ([] :: E) b with SOk _ => SOk E | SBad v => SBad v end
+      | SOk TyBool => match static_block P rt true ([] :: E) b with SOk _ => SOk E | SBad v => SBad v end
       | SOk _ => SBad VCondition
       | SBad v => SBad v
       end
@@ -133,26 +174,39 @@ Fixpoint static_stmt (lp : bool) (E : senv) (s : stmt) {struct s} : sres senv :=
                end) args with
       | SBad v => SBad v
       | SOk _ =>
-          match static_block true ([(x, (TyInt, false))] :: E) b with SOk _ => SOk E | SBad v => SBad v end
+          match static_block P rt true ([(x, (TyInt, false))] :: E) b with SOk _ => SOk E | SBad v => SBad v end
       end
-  | SPrint e => match sty E e with SOk _ => SOk E | SBad v => SBad v end
+  | SPrint c => match sty_c P E c with
+                | SOk (Some _) => SOk E
+                | SOk None => SBad VUnitValue
+                | SBad v => SBad v
+                end
+  | SExpr c => match sty_c P E c with SOk _ => SOk E | SBad v => SBad v end
+  | SReturn None => if rt then SBad VReturnType else SOk E
+  | SReturn (Some c) =>
+      match sty_c P E c with
+      | SOk (Some TyInt) => if rt then SOk E else SBad VReturnType
+      | SOk (Some _) => SBad VReturnType
+      | SOk None => SBad VUnitValue
+      | SBad v => SBad v
+      end
   | SPass => SOk E
   | SBreak | SContinue => if lp then SOk E else SBad VBreakOutsideLoop
   end
-with static_block (lp : bool) (E : senv) (b : block) {struct b} : sres senv :=
+with static_block (P : prog) (rt lp : bool) (E : senv) (b : block) {struct b} : sres senv :=
   match b with
   | BNil => SOk E
-  | BCons s r => match static_stmt lp E s with SOk E1 => static_block lp E1 r | SBad v => SBad v end
+  | BCons s r => match static_stmt P rt lp E s with SOk E1 => static_block P rt lp E1 r | SBad v => SBad v end
   end
-with static_els (lp : bool) (E : senv) (el : els) {struct el} : sres unit :=
+with static_els (P : prog) (rt lp : bool) (E : senv) (el : els) {struct el} : sres unit :=
   match el with
   | ENone => SOk Datatypes.tt
-  | EElse b => match static_block lp ([] :: E) b with SOk _ => SOk Datatypes.tt | SBad v => SBad v end
+  | EElse b => match static_block P rt lp ([] :: E) b with SOk _ => SOk Datatypes.tt | SBad v => SBad v end
   | EElif c b rest =>
       match sty E c with
       | SOk TyBool =>
-          match static_block lp ([] :: E) b with
-          | SOk _ => static_els lp E rest
+          match static_block P rt lp ([] :: E) b with
+          | SOk _ => static_els P rt lp E rest
           | SBad v => SBad v
           end
       | SOk _ => SBad VCondition
@@ -162,9 +216,40 @@ with static_els (lp : bool) (E : senv) (el : els) {struct el} : sres unit :=
 
 Definition param_env (ps : list ident) : senv := [map (fun p => (p, (TyInt, false))) ps].
 
-(* None: the function obeys the documented rules; Some k: the first rule it breaks *)
-Definition static_fn (c : fcase) : option vkind :=
-  match static_block false (param_env (params c)) (body c) with SOk _ => None | SBad k => Some k end.
+(* a function returning int must end in a return on every path: its last statement is a `return`
+   or an if/elif/else whose branches all end that way *)
+Fixpoint ends_ret (b : block) : bool :=
+  match b with
+  | BNil => false
+  | BCons s BNil =>
+      match s with
+      | SReturn _ => true
+      | SIf _ th el => ends_ret th && ends_ret_els el
+      | _ => false
+      end
+  | BCons _ r => ends_ret r
+  end
+with ends_ret_els (el : els) : bool :=
+  match el with
+  | ENone => false
+  | EElse b => ends_ret b
+  | EElif _ b rest => ends_ret b && ends_ret_els rest
+  end.
+
+Definition static_def (P : prog) (d : fdef) : option vkind :=
+  match static_block P (fret d) false (param_env (fparams d)) (fbody d) with
+  | SBad k => Some k
+  | SOk _ => if negb (fret d) || ends_ret (fbody d) then None else Some VMissingReturn
+  end.
+
+Fixpoint static_defs (P : prog) (l : list fdef) : option vkind :=
+  match l with
+  | [] => None
+  | d :: r => match static_def P d with Some k => Some k | None => static_defs P r end
+  end.
+
+(* None: every function of the program obeys the documented rules; Some k: the first rule broken *)
+Definition static_fn (c : fcase) : option vkind := static_defs (cprog c) (cprog c).
 
 Definition vkind_code (k : vkind) : Z :=
   match k with
@@ -172,4 +257,5 @@ Definition vkind_code (k : vkind) : Z :=
   | VCompareTypes => 6 | VAndOrOperand => 7 | VReassignImmutable => 8 | VReassignType => 9
   | VAnnotation => 10 | VRebindSameScope => 11 | VCompoundTarget => 12 | VCompoundOperand => 13
   | VCondition => 14 | VRangeArg => 15 | VBreakOutsideLoop => 16
+  | VUnknownFn => 17 | VCallArity => 18 | VCallArgType => 19 | VUnitValue => 20 | VReturnType => 21 | VMissingReturn => 22
   end.
